@@ -25,6 +25,9 @@ BoundedSequenceEncoding::BoundedSequenceEncoding(const unsigned char *bound_begi
       entry.next = false;
     }
     entries_.push_back(entry);
+    // A zero-width field can follow a completely full word (shift == 64).
+    // Put it at shift 0 so Encode/Decode never shift a uint64_t by 64.
+    if (!length) entries_.back().shift = 0;
     entry.shift += length;
   }
   byte_length_ = full * sizeof(uint64_t) + (entry.shift + 7) / 8;
